@@ -90,6 +90,7 @@ def instantiate(rng, s, maxlen=3):
         present = [f for f in s["fields"] if rng.random() < 0.6]
         rng.shuffle(present)
         node["sparse"] = [f for f in s["fields"] if f not in present]
+        node["fields"] = list(s["fields"])
         node["kids"] = [instantiate(rng, f, maxlen) for f in present]
     elif k == "d":
         node["kids"] = [instantiate(rng, f, maxlen) for f in s["fields"]]
@@ -219,9 +220,11 @@ def build(tree, init=None, history=None):
         assert len(kids) == len(node["kids"]), "harness: tree shape mismatch at node %s" % node["id"]
         if node["k"] == "s" and isinstance(el.value, str) and el.value.startswith("v"):
             assert el.value == "v%d" % node["id"], "harness: list history simulated wrongly at node %s" % node["id"]
-        for ke, kn in zip(kids, node["kids"]):
+        keys = list(el.keys()) if node["k"] in ("d", "c") else None
+        for i, (ke, kn) in enumerate(zip(kids, node["kids"])):
             if node["k"] in ("d", "c"):
                 assert ke.name == kn["name"], "harness: field order mismatch"
+                assert keys[i] == kn.get("key", kn["name"]), "harness: dict key mismatch"
             walk(ke, kn)
     walk(root, tree)
     if len(_BUILD_CACHE) > 64:
@@ -280,6 +283,18 @@ def simulate_op(tree, op):
     """apply one list operation to the description (in place) with Python's list semantics;
     raises on an operation Python would reject"""
     n = _node_at(tree, op["at"])
+    if op["op"] == "setfield":
+        # SparseDict item assignment of an instance of a renamed subclass of the field schema: stored under
+        # the field's key, keeping its own name (replaces in place, or is appended when the key was absent)
+        assert n["k"] == "d" and "sparse" in n
+        new = copy.deepcopy(op["nodes"][0])
+        for j, kid in enumerate(n["kids"]):
+            if kid.get("key", kid["name"]) == op["key"]:
+                n["kids"][j] = new
+                return
+        n["kids"].append(new)
+        n["sparse"] = [f for f in n["sparse"] if f["name"] != op["key"]]
+        return
     assert n["k"] == "l"
     K = n["kids"]
     new = copy.deepcopy(op.get("nodes", []))
@@ -323,6 +338,10 @@ def apply_history(root, history):
             lst = list(lst.children)[i]
         vals = [value_of(n) for n in op.get("nodes", [])]
         name = op["op"]
+        if name == "setfield":
+            field = [f for f in lst.field_schema if f.name == op["key"]][0]
+            lst[op["key"]] = field.named(op["nodes"][0]["name"])(vals[0])
+            continue
         if name == "pop":
             lst.pop(op["i"])
         elif name == "insert":
@@ -349,13 +368,42 @@ def apply_history(root, history):
             raise ValueError(name)
 
 
-def rand_history(rng, tree, nops):
+def _sparse_positions(tree):
+    out = []
+
+    def go(n, pos):
+        if n["k"] == "d" and "sparse" in n and n.get("fields"):
+            out.append(pos)
+        for i, k in enumerate(n["kids"]):
+            go(k, pos + [i])
+    go(tree, [])
+    return out
+
+
+def rand_history(rng, tree, nops, setfield=0.0):
     """(final tree, history): `nops` random operations on random List nodes (any depth) of the
-    evolving tree"""
+    evolving tree; with probability `setfield` an operation is instead a SparseDict item assignment
+    of an instance of a renamed subclass of the field schema (the KF-C10-a state)"""
     t = copy.deepcopy(tree)
     nxt = _max_id(t) + 1
     hist = []
     for _ in range(nops):
+        sparse = _sparse_positions(t) if setfield and rng.random() < setfield else []
+        if sparse:
+            pos = rng.choice(sparse)
+            n = _node_at(t, pos)
+            field = rng.choice(n["fields"])
+            new = instantiate(rng, field, maxlen=2)
+            nxt = _number_from(new, nxt)
+            newname = rng.choice(["y", "renamed", field["name"] + "2", rng.choice(n["fields"])["name"],
+                                  pick_name(rng, 0.5, [PUNCT, DIGITS, UNICODE])])
+            new["name"] = newname
+            if newname != field["name"]:
+                new["key"] = field["name"]
+            op = {"at": pos, "op": "setfield", "key": field["name"], "nodes": [new]}
+            simulate_op(t, op)
+            hist.append(op)
+            continue
         lists = _list_positions(t)
         if not lists:
             break
@@ -464,16 +512,37 @@ def print_path(ast):
     return "".join(out)
 
 
-def step_wf(st):
-    if st["t"] == "name":
-        return good_name(st["s"])
-    if st["t"] == "slice" and "c" in st:
-        return st["c"]["v"] != 0
+def _name_ok(ast, i):
+    """a name step can be spelled: non-empty, and a final backslash only on the very last step of a path
+    without trailing slash (Spec.wfSteps)"""
+    s = ast["steps"][i]["s"]
+    if s == "":
+        return False
+    if s.endswith("\\"):
+        return i == len(ast["steps"]) - 1 and not ast["trail"]
     return True
 
 
+def ast_spellable(ast):
+    """every name of the AST can be written in its position (zero strides allowed)"""
+    return all(st["t"] != "name" or _name_ok(ast, i) for i, st in enumerate(ast["steps"]))
+
+
+def has_zero_step(ast):
+    return any(st["t"] == "slice" and "c" in st and st["c"]["v"] == 0 for st in ast["steps"])
+
+
+def zero_steps_as_one(ast):
+    a = copy.deepcopy(ast)
+    for st in a["steps"]:
+        if st["t"] == "slice" and "c" in st and st["c"]["v"] == 0:
+            st["c"]["v"] = 1
+    return a
+
+
 def ast_wf(ast):
-    return all(step_wf(s) for s in ast["steps"])
+    """the domain of the Lean theorems (Spec.CPath.wf): spellable and no zero stride"""
+    return ast_spellable(ast) and not has_zero_step(ast)
 
 
 def canon_ast(ast):
